@@ -15,6 +15,11 @@
 using namespace asl;
 using vf::fmt;
 
+// asl built with -DASL_VERIF calls schedule-point hooks (verif_hooks.h) that the scheduler engine supplies; this sequential
+// harness has no scheduler: weak no-ops (a strong definition elsewhere in the link wins).
+extern "C" __attribute__((weak)) void asl_verif_point(int, const void*) {}
+extern "C" __attribute__((weak)) void asl_verif_spin(const volatile void*) {}
+
 typedef std::vector<int> Cps;
 typedef std::vector<unsigned> Units;
 
